@@ -62,13 +62,16 @@ func (s *Sym) MakeFn(name string, args ...*RF) *RF {
 				}
 			}
 		}
-	case "math.Exp":
-		if at := args[0].SingleAtom(); at != nil && at.Name == "math.Log" {
-			return at.Args[0]
+	case "math.Exp", "math.Log":
+		inv := "math.Log"
+		if name == "math.Log" {
+			inv = "math.Exp"
 		}
-	case "math.Log":
-		if at := args[0].SingleAtom(); at != nil && at.Name == "math.Exp" {
-			return at.Args[0]
+		// the argument may be an unreduced fraction equal to a single log/exp atom
+		for _, at := range args[0].Atoms(false) {
+			if at.Name == inv && args[0].Equal(s.atomRF(at.ID)) {
+				return at.Args[0]
+			}
 		}
 	case "toint":
 		if s.Integral(args[0]) {
@@ -86,6 +89,19 @@ func (s *Sym) MakeFn(name string, args ...*RF) *RF {
 			return args[1]
 		} else if c != nil && c.Name == "false" {
 			return args[2]
+		}
+		// boolean-valued: ite(c,true,false)=c ; ite(c,false,true)=!c
+		if t, f := args[1].SingleAtom(), args[2].SingleAtom(); t != nil && f != nil {
+			if t.Name == "true" && f.Name == "false" {
+				return args[0]
+			}
+			if t.Name == "false" && f.Name == "true" {
+				return s.Not(args[0])
+			}
+		}
+		// ite(!c,a,b) = ite(c,b,a)
+		if c := args[0].SingleAtom(); c != nil && c.Name == "not" {
+			return s.MakeFn("ite", c.Args[0], args[2], args[1])
 		}
 	case "not":
 		if at := args[0].SingleAtom(); at != nil && at.Name == "not" {
@@ -175,6 +191,15 @@ func (s *Sym) nary(name string, args []*RF) *RF {
 	for _, f := range flat {
 		if at := f.SingleAtom(); at != nil && at.Name == annih {
 			return f
+		}
+	}
+	// complementary pair: a ∨ ¬a = true ; a ∧ ¬a = false
+	for i, f := range flat {
+		nf := s.Not(f)
+		for j, g := range flat {
+			if i != j && nf.Equal(g) {
+				return s.Var(annih, false)
+			}
 		}
 	}
 	// absorption: a ∨ (¬a ∧ b) = a ∨ b ; a ∧ (¬a ∨ b) = a ∧ b
